@@ -8,8 +8,9 @@ package search
 // converges to the directory once it stops changing. Data races are reported by the race detector.
 //
 // Bounded so that it completes on a busy machine: all shard contents are built BEFORE the run (building under
-// -race is slow), the mutator performs at most VERIF_N operations and stops early after its time budget
-// (VERIF_C19_RACE_BUDGET_S, default 120 s), the convergence wait is bounded (60 s), searches are paced.
+// -race is slow), the mutator performs VERIF_N operations or 40 s of them, whichever takes longer, and stops
+// early after its time budget (VERIF_C19_RACE_BUDGET_S, default 120 s), the convergence wait is bounded (60 s),
+// searches are paced.
 // The check treats only a data-race report or a crash/panic as deciding; everything else is supporting evidence.
 
 import (
@@ -60,7 +61,7 @@ func TestVerifC19Race(t *testing.T) {
 	if v, err := strconv.Atoi(os.Getenv("VERIF_C19_RACE_BUDGET_S")); err == nil && v > 0 {
 		budget = time.Duration(v) * time.Second
 	}
-	began := time.Now()
+	t0 := time.Now()
 	dir := filepath.Join(os.Getenv("VERIF_TMP"), "c19race")
 	if os.Getenv("VERIF_TMP") == "" {
 		dir = filepath.Join(t.TempDir(), "r")
@@ -70,7 +71,7 @@ func TestVerifC19Race(t *testing.T) {
 	}
 	defer os.RemoveAll(dir)
 
-	repos := []string{"repo0", "repo1", "repo2", "repo3", "repo4"}
+	repos := []string{"repo0", "repo1", "repo2", "repo3"}
 	onDisk := map[string]int{} // repo -> version on disk (absent = deleted)
 	var diskMu sync.Mutex
 	ver := 0
@@ -83,16 +84,17 @@ func TestVerifC19Race(t *testing.T) {
 			t.Fatal(err)
 		}
 	}
-	// building shards under -race is slow: pre-build 3 content versions per repository, used round-robin
+	// building shards under -race is slow: pre-build 2 content versions per repository, used alternately
+	const nver = 2
 	blobs := map[string][]byte{}
 	for _, rp := range repos {
-		for v := 1; v <= 3; v++ {
+		for v := 1; v <= nver; v++ {
 			blobs[fmt.Sprint(rp, v)] = vfC19RaceBlob(t, rp, v)
 		}
 	}
 	cycle := map[string]int{}
 	put := func(repo string) {
-		cycle[repo] = cycle[repo]%3 + 1
+		cycle[repo] = cycle[repo]%nver + 1
 		ver = cycle[repo]
 		base := repo + "_v16.00000.zoekt"
 		tmp := filepath.Join(dir, base+".tmpw")
@@ -117,6 +119,8 @@ func TestVerifC19Race(t *testing.T) {
 	}
 	defer ds.Close()
 
+	setup := time.Since(t0)
+	began := time.Now() // the time budget covers the mutation phase only
 	var fails sync.Map
 	fail := func(key, what string) {
 		if _, dup := fails.LoadOrStore(key, what); !dup {
@@ -191,7 +195,10 @@ func TestVerifC19Race(t *testing.T) {
 	}
 
 	done := 0
-	for op := 0; op < nops && time.Since(began) < budget; op++ {
+	// at least nops operations AND at least minDur of mutation (an idle machine finishes 240 operations in a second),
+	// at most the budget
+	const minDur = 40 * time.Second
+	for op := 0; (op < nops || time.Since(began) < minDur) && time.Since(began) < budget; op++ {
 		done++
 		rp := r.Pick(repos)
 		base := rp + "_v16.00000.zoekt"
@@ -261,5 +268,5 @@ func TestVerifC19Race(t *testing.T) {
 		fail("no-convergence", fmt.Sprintf("60s after the last change the searcher serves %v, the directory holds %v", last, want))
 	}
 	vfInfo(map[string]any{"race_stress": map[string]any{"ops_planned": nops, "ops": done, "searches": searches.Load(), "non_empty": nonEmpty.Load(),
-		"lists": lists.Load(), "forced_gcs": gcs.Load(), "converged": converged, "mutation_s": int(mutated.Seconds()), "total_s": int(time.Since(began).Seconds())}})
+		"lists": lists.Load(), "forced_gcs": gcs.Load(), "converged": converged, "setup_s": int(setup.Seconds()), "mutation_s": int(mutated.Seconds()), "total_s": int(time.Since(t0).Seconds())}})
 }
